@@ -100,6 +100,12 @@ class SymMap:
     def eq(self, other):
         return z3.And(self.present == other.present, self.vals == other.vals)
 
+    def same_view(self, other):
+        """equal as mappings (values of absent keys are irrelevant)"""
+        k = z3.Const('svk', PyV)
+        return FA([k], z3.And(self.has(k) == other.has(k), z3.Implies(self.has(k), self.at(k) == other.at(k))),
+                  patterns=[self.has(k), other.has(k)])
+
     def __repr__(self):
         return f'SymMap({self.present}, {self.vals})'
 
